@@ -73,7 +73,8 @@ ToolDf(t, n) == IF t = "incd" THEN IntV(10) ELSE NoVal     \* tool-level `defaul
 ToolIns(t) == IF t \in {"add", "pair"} THEN <<"x", "y">> ELSE <<"x">>
 
 ApplyBasic(t, a) ==
-  CASE t \in {"id", "slow"}  -> a["x"]
+  CASE t = "id"              -> a["x"]
+    [] t = "slow"            -> IntV(1)      \* a CommandLineTool (sleep 1) with a constant output
     [] t \in {"inc", "incd"} -> IntV(a["x"].v + 1)
     [] t = "nullodd"         -> IF a["x"].v % 2 = 1 THEN Null ELSE a["x"]
     [] t = "sum"             -> IntV(SumInts(a["x"].v))
@@ -187,9 +188,25 @@ FlatCross(st, obj, lib) ==
                      ELSE obj[n]]
   IN ArrV([m \in 1..total |-> RunOne(st, Slice(m), lib)])
 
+\* cwltool checks, when a link is followed (match_types), that the DECLARED type of the source can be
+\* assigned to the declared type of the sink, unless the input has linkMerge or valueFrom.  All ports of the
+\* generated documents are Any? except: tool inputs (ToolTy), the output of a scattered step (an array) and
+\* the output of a loop with outputMethod all (an array of optional arrays, as cwltool declares it).
+LinkTypeMismatch(env, st) ==
+  \E i \in DOMAIN st.in :
+     LET b == st.in[i] IN
+     /\ Len(b.src) = 1 /\ b.lm = "none" /\ b.vf = "none" /\ b.src[1].k = "step"
+     /\ b.name \in RangeOf(ToolIns(st.tool))
+     /\ LET ps == env.steps[b.src[1].i]
+            scattered == b.name \in RangeOf(st.sc)
+            ty == IF st.tool \in BasicTools THEN ToolTy(st.tool, b.name) ELSE "Any?" IN
+        \/ (ps.sc # <<>> \/ ps.lp.k = "all") /\ ~scattered /\ ty \in {"int", "int?"}
+        \/ ps.lp.k = "all" /\ ((~scattered /\ ty = "int[]") \/ (scattered /\ ty \in {"int", "int?"}))
+
 EvalStep(env, st, lib) ==
   LET raw == [i \in DOMAIN st.in |-> RawBind(env, st.in[i])] IN
   IF \E i \in DOMAIN raw : IsFail(raw[i]) THEN Fail
+  ELSE IF LinkTypeMismatch(env, st) THEN Fail
   ELSE LET obj == [n \in {st.in[i].name : i \in DOMAIN st.in} |->
                      raw[CHOOSE i \in DOMAIN st.in : st.in[i].name = n]] IN
        IF st.sc = <<>> THEN RunOne(st, obj, lib)
@@ -208,7 +225,8 @@ EvalStep(env, st, lib) ==
 RECURSIVE RunSteps(_, _, _, _)
 RunSteps(wf, ins, res, lib) ==
   IF Len(res) = Len(wf.steps) THEN res
-  ELSE RunSteps(wf, ins, Append(res, EvalStep([ins |-> ins, res |-> res], wf.steps[Len(res) + 1], lib)), lib)
+  ELSE RunSteps(wf, ins, Append(res, EvalStep([ins |-> ins, res |-> res, steps |-> wf.steps],
+                                              wf.steps[Len(res) + 1], lib)), lib)
 
 \* the library of subworkflows (input x, output o); they contain no subworkflow themselves
 In(i)   == [k |-> "in", i |-> i]
@@ -247,95 +265,177 @@ Eval(p) == EvalWF(p, EffIns(p))
 Expected(p) == LET r == Eval(p) IN IF IsFail(r) THEN [fail |-> TRUE, outs |-> <<>>]
                                    ELSE [fail |-> FALSE, outs |-> r.v]
 
+(* Semantic events of an evaluation: which corner of the semantics a program exercises.  They are
+   emitted with every program; the harness uses them as coverage classes and to name the class of a
+   disagreement between StreamFlow and the reference (violation signatures).                     *)
+BindEvents(env, b, where) ==
+  LET vals == [i \in DOMAIN b.src |-> SrcVal(env, b.src[i])] IN
+       (IF b.pv # "none" /\ Len(b.src) = 1 /\ b.lm = "none" /\ IsArr(vals[1])
+        THEN {"pickValue-on-single-list-source:" \o where} ELSE {})
+  \cup (IF b.lm # "none" /\ Len(b.src) = 1 THEN {"linkMerge-single-source:" \o where} ELSE {})
+  \cup (IF \E i, j \in DOMAIN b.src : i < j /\ b.src[i] = b.src[j] THEN {"duplicate-source:" \o where} ELSE {})
+  \cup (IF b.lm = "merge_flattened"
+           /\ \E i \in DOMAIN vals : IsArr(vals[i]) /\ \E k \in DOMAIN vals[i].v : IsArr(vals[i].v[k])
+        THEN {"merge_flattened-of-nested-list:" \o where} ELSE {})
+  \cup (IF b.pv \in {"first_non_null", "the_only_non_null"} /\ ~(\E i \in DOMAIN vals : IsFail(vals[i]))
+           /\ IsFail(Picked(b.pv, Merged(b.lm, vals)))
+        THEN {"pickValue-fails:" \o b.pv} ELSE {})
+  \cup (IF b.df # NoVal /\ ~(\E i \in DOMAIN vals : IsFail(vals[i]))
+           /\ LET p == Picked(b.pv, Merged(b.lm, vals)) IN p = NoVal \/ IsNull(p)
+        THEN {"default-used"} ELSE {})
+
+StepEvents(env, st) ==
+  LET raw == [i \in DOMAIN st.in |-> RawBind(env, st.in[i])]
+      Val(n) == raw[CHOOSE i \in DOMAIN st.in : st.in[i].name = n]
+      m == IF st.method = "none" THEN "single" ELSE st.method
+  IN UNION {BindEvents(env, st.in[i], "in") : i \in DOMAIN st.in}
+     \cup (IF st.sc = <<>> \/ (\E i \in DOMAIN raw : IsFail(raw[i])) THEN {}
+           ELSE IF \E i \in DOMAIN st.sc : ~IsArr(Val(st.sc[i])) THEN {"scatter-over-non-array"}
+           ELSE (IF \E i \in DOMAIN st.sc : Len(Val(st.sc[i]).v) = 0 THEN {"scatter-empty:" \o m} ELSE {})
+                \cup (IF st.method \in {"none", "dotproduct"}
+                         /\ \E i \in DOMAIN st.sc : Len(Val(st.sc[i]).v) # Len(Val(st.sc[1]).v)
+                      THEN {"dotproduct-unequal-lengths"} ELSE {}))
+     \cup (IF st.when.k = "bad" THEN {"when-not-boolean"} ELSE {})
+     \cup (IF ~(\E i \in DOMAIN raw : IsFail(raw[i])) /\ LinkTypeMismatch(env, st) THEN {"link-type-mismatch"} ELSE {})
+
+Events(p, r) ==
+  LET ins == EffIns(p) IN
+  UNION {StepEvents([ins |-> ins, res |-> SubSeq(r, 1, j - 1), steps |-> p.steps], p.steps[j]) : j \in DOMAIN p.steps}
+  \cup UNION {BindEvents([ins |-> ins, res |-> r, steps |-> p.steps], p.outs[k], "out") : k \in DOMAIN p.outs}
+  \cup (IF \E j \in DOMAIN r : r[j] = Null /\ p.steps[j].sc = <<>> /\ p.steps[j].when.k # "none" THEN {"step-skipped"} ELSE {})
+  \cup (IF \E j \in DOMAIN r : IsFail(r[j]) THEN {"step-fails"} ELSE {})
+
 (* ------------------------------------------------------------------------------------------ *)
 (* PART 4: the program generator.  A state is a partial program; the actions add one syntactic
    element each, so that exhaustive search enumerates every program of the configured feature
    grid and random simulation samples larger ones.                                              *)
 CONSTANTS MaxSteps,      \* steps per workflow
-          MaxBudget,     \* how many non-default features a program may use
           Tools,         \* subset of BasicTools \cup DOMAIN SubLib
           InDom,         \* <<S1, S2, S3>>: domain of each workflow input
           LMs, PVs, VFs, DFs, Whens, Methods, Loops, OutKinds,  \* feature grids
           NIn,           \* how many of the three workflow inputs steps may use as sources
           OutNs,         \* numbers of sources of the additional merged output (0 = no such output)
-          Budgets,       \* initial feature budgets (subset of 0..MaxBudget)
+          Budgets,       \* initial feature budgets: set of records [ctl, bind, out] (how many non-default
+                         \* control / binding / output features the program may use)
           FailOks        \* {TRUE}: any program; FALSE: only programs whose evaluation succeeds
-VARIABLES prog, cur, pc, budget, failok
+VARIABLES prog,     \* the program built so far: [top, ins, indf, steps, outs]
+          res,      \* res[j] = value of the output of step j (or Fail): a function of prog, kept for speed
+          cur,      \* the step under construction
+          pc,       \* which syntactic element comes next
+          budget,   \* remaining feature budget
+          nsteps,   \* number of steps this program will have
+          failok    \* FALSE: only programs that evaluate successfully are built
 
-vars == <<prog, cur, pc, budget, failok>>
+vars == <<prog, res, cur, pc, budget, nsteps, failok>>
 
 NoCur == [tool |-> "none"]
 Srcs(k) == {In(i) : i \in 1..NIn} \cup {Of(j) : j \in 1..k}
-Env == [ins |-> EffIns(prog), res |-> RunSteps(prog, EffIns(prog), <<>>, SubLib)]
+Env == [ins |-> EffIns(prog), res |-> res, steps |-> prog.steps]
 
+NoIns == <<NoVal, NoVal, NoVal>>
 Init ==
-  /\ \E a \in InDom[1], b \in InDom[2], c \in InDom[3], d \in {NoVal, IntV(5)} :
-       prog = [top |-> TRUE, ins |-> <<a, b, c>>, indf |-> <<d, NoVal, NoVal>>, steps |-> <<>>, outs |-> <<>>]
+  /\ prog = [top |-> TRUE, ins |-> NoIns, indf |-> NoIns, steps |-> <<>>, outs |-> <<>>]
+  /\ res = <<>>
   /\ cur = NoCur
-  /\ pc = "steps"
+  /\ pc = "ins"
   /\ budget \in Budgets
+  /\ nsteps \in 1..MaxSteps
   /\ failok \in FailOks
 
+\* 0. the job: values of the three workflow inputs (NoVal = not in the job) and the default of i1
+PickIns(a, b, c, d) ==
+  /\ pc = "ins"
+  /\ prog' = [prog EXCEPT !.ins = <<a, b, c>>, !.indf = <<d, NoVal, NoVal>>]
+  /\ pc' = "steps"
+  /\ UNCHANGED <<res, cur, budget, nsteps, failok>>
+
+Have(k, c) == c <= budget[k]
+Spend(k, c) == budget' = [budget EXCEPT ![k] = @ - c]
+
+\* 1. the process of the step (e: an extra step input "e" that the process does not have)
 PickTool(t, e) ==
-  /\ pc = "steps" /\ Len(prog.steps) < MaxSteps
-  /\ LET c == (IF e THEN 1 ELSE 0) + (IF t \in BasicTools THEN 0 ELSE 1) IN
-     /\ c <= budget
-     /\ budget' = budget - c
-  /\ cur' = [tool |-> t, names |-> ToolIns(t) \o (IF e THEN <<"e">> ELSE <<>>), in |-> <<>>, pend |-> 0]
-  /\ pc' = "bind"
-  /\ UNCHANGED <<prog, failok>>
-
-Cost(lm, pv, df, vf, n) == (IF lm # "none" THEN 1 ELSE 0) + (IF pv # "none" THEN 1 ELSE 0)
-                           + (IF df # NoVal THEN 1 ELSE 0) + (IF vf # "none" THEN 1 ELSE 0)
-                           + (IF n = 2 THEN 1 ELSE 0)
-
-AfterBind(c) == IF Len(c.in) = Len(c.names) THEN "ctl" ELSE "bind"
-
-PickBind(n, lm, pv, df, vf) ==
-  /\ pc = "bind"
-  /\ n = 0 => (lm = "none" /\ pv = "none" /\ (df # NoVal \/ vf # "none"))
-  /\ Cost(lm, pv, df, vf, n) <= budget
-  /\ budget' = budget - Cost(lm, pv, df, vf, n)
-  /\ LET b == [name |-> cur.names[Len(cur.in) + 1], src |-> <<>>, lm |-> lm, pv |-> pv, df |-> df, vf |-> vf]
-         c == [cur EXCEPT !.in = Append(@, b), !.pend = n] IN
-     /\ cur' = c
-     /\ pc' = IF n = 0 THEN AfterBind(c) ELSE "src"
-  /\ UNCHANGED <<prog, failok>>
-
-PickSrc(ss) ==
-  /\ pc = "src"
-  /\ Len(ss) = cur.pend
-  /\ LET k == Len(cur.in)
-         c == [cur EXCEPT !.in[k].src = ss, !.pend = 0] IN
-     /\ failok \/ ~IsFail(RawBind(Env, c.in[k]))
-     /\ cur' = c
-     /\ pc' = AfterBind(c)
-  /\ UNCHANGED <<prog, budget, failok>>
+  /\ pc = "steps" /\ Len(prog.steps) < nsteps
+  /\ LET c == (IF e THEN 1 ELSE 0) + (IF t \in BasicTools \ {"slow"} THEN 0 ELSE 1) IN Have("ctl", c) /\ Spend("ctl", c)
+  /\ cur' = [tool |-> t, names |-> ToolIns(t) \o (IF e THEN <<"e">> ELSE <<>>), in |-> <<>>, pend |-> 0,
+             sc |-> <<>>, method |-> "none", when |-> NoWhen, lp |-> NoLoop]
+  /\ pc' = "scatter"
+  /\ UNCHANGED <<prog, res, nsteps, failok>>
 
 ScatterChoices(names) ==
   {<<>>} \cup {<<n>> : n \in RangeOf(names)}
          \cup (IF Len(names) >= 2 THEN {<<names[1], names[2]>>, <<names[2], names[1]>>} ELSE {})
          \cup (IF Len(names) >= 3 THEN {names} ELSE {})
 
-PickCtl(sc, m, w, lp) ==
-  /\ pc = "ctl"
+\* 2. scatter, 3. when, 4. loop
+PickScatter(sc, m) ==
+  /\ pc = "scatter"
   /\ (Len(sc) <= 1) <=> (m = "none")
+  /\ LET c == IF sc # <<>> THEN 1 ELSE 0 IN Have("ctl", c) /\ Spend("ctl", c)
+  /\ cur' = [cur EXCEPT !.sc = sc, !.method = m]
+  /\ pc' = "when"
+  /\ UNCHANGED <<prog, res, nsteps, failok>>
+
+PickWhen(w) ==
+  /\ pc = "when"
   /\ w.k = "none" => w.n = "x"
   /\ w.n \in RangeOf(cur.names)
-  /\ lp.k # "none" => /\ sc = <<>> /\ w.k = "none"
+  /\ LET c == IF w.k # "none" THEN 1 ELSE 0 IN Have("ctl", c) /\ Spend("ctl", c)
+  /\ cur' = [cur EXCEPT !.when = w]
+  /\ pc' = "loop"
+  /\ UNCHANGED <<prog, res, nsteps, failok>>
+
+PickLoop(lp) ==
+  /\ pc = "loop"
+  /\ lp.k # "none" => /\ cur.sc = <<>> /\ cur.when.k = "none"
                       /\ cur.tool \in {"inc", "incd", "id", "sub_inc2"}      \* the loop must make progress
                       /\ lp.vf \in {"none", "inc"}
                       /\ cur.tool = "id" => lp.vf = "inc"
   /\ lp.k = "none" => (lp.lt = 0 /\ lp.vf = "none")
-  /\ LET c == (IF sc # <<>> THEN 1 ELSE 0) + (IF w.k # "none" THEN 1 ELSE 0) + (IF lp.k # "none" THEN 1 ELSE 0) IN
-     /\ c <= budget
-     /\ budget' = budget - c
-  /\ LET st == [tool |-> cur.tool, in |-> cur.in, sc |-> sc, method |-> m, when |-> w, lp |-> lp] IN
-     /\ failok \/ ~IsFail(EvalStep(Env, st, SubLib))
+  /\ LET c == IF lp.k # "none" THEN 1 ELSE 0 IN Have("ctl", c) /\ Spend("ctl", c)
+  /\ cur' = [cur EXCEPT !.lp = lp]
+  /\ pc' = "bind"
+  /\ UNCHANGED <<prog, res, nsteps, failok>>
+
+\* 5. one binding per step input: number of sources, linkMerge, pickValue, default, valueFrom ...
+Cost(lm, pv, df, vf, n) == (IF lm # "none" THEN 1 ELSE 0) + (IF pv # "none" THEN 1 ELSE 0)
+                           + (IF df # NoVal THEN 1 ELSE 0) + (IF vf # "none" THEN 1 ELSE 0)
+                           + (IF n = 2 THEN 1 ELSE 0)
+
+AfterBind(c) == IF Len(c.in) = Len(c.names) THEN "endstep" ELSE "bind"
+
+PickBind(n, lm, pv, df, vf) ==
+  /\ pc = "bind"
+  /\ n = 0 => (lm = "none" /\ pv = "none" /\ (df # NoVal \/ vf # "none"))
+  /\ Have("bind", Cost(lm, pv, df, vf, n)) /\ Spend("bind", Cost(lm, pv, df, vf, n))
+  /\ LET b == [name |-> cur.names[Len(cur.in) + 1], src |-> <<>>, lm |-> lm, pv |-> pv, df |-> df, vf |-> vf]
+         c == [cur EXCEPT !.in = Append(@, b), !.pend = n] IN
+     /\ cur' = c
+     /\ pc' = IF n = 0 THEN AfterBind(c) ELSE "src"
+  /\ UNCHANGED <<prog, res, nsteps, failok>>
+
+\* ... and its sources (workflow inputs or outputs of earlier steps)
+PickSrc(ss) ==
+  /\ pc = "src"
+  /\ Len(ss) = cur.pend
+  /\ LET k == Len(cur.in)
+         c == [cur EXCEPT !.in[k].src = ss, !.pend = 0]
+         raw == RawBind(Env, c.in[k]) IN
+     /\ failok \/ (~IsFail(raw) /\ (c.in[k].name \in RangeOf(cur.sc) => IsArr(raw)))
+     /\ cur' = c
+     /\ pc' = AfterBind(c)
+  /\ UNCHANGED <<prog, res, budget, nsteps, failok>>
+
+\* 6. the step is complete
+EndStep ==
+  /\ pc = "endstep"
+  /\ LET st == [tool |-> cur.tool, in |-> cur.in, sc |-> cur.sc, method |-> cur.method, when |-> cur.when, lp |-> cur.lp]
+         r == EvalStep(Env, st, SubLib) IN
+     /\ failok \/ ~IsFail(r)
      /\ prog' = [prog EXCEPT !.steps = Append(@, st)]
+     /\ res' = Append(res, r)
   /\ cur' = NoCur
   /\ pc' = "steps"
-  /\ UNCHANGED failok
+  /\ UNCHANGED <<budget, nsteps, failok>>
 
 \* workflow outputs.  kind "all": one output per step; "sinks": one per step nobody consumes;
 \* "last": only the last step (other sinks become dead ends); extra = an additional output with
@@ -350,42 +450,45 @@ SetToSortedSeq(S) == LET RECURSIVE F(_, _)
                                       ELSE LET m == CHOOSE x \in T : \A y \in T : x <= y IN F(T \ {m}, Append(acc, m))
                      IN F(S, <<>>)
 PickOuts(kind, nx, lm, pv) ==
-  /\ pc = "steps" /\ Len(prog.steps) >= 1
+  /\ pc = "steps" /\ Len(prog.steps) = nsteps
   /\ nx = 0 => (lm = "none" /\ pv = "none")
   /\ LET c == (IF nx > 0 THEN 1 ELSE 0) + (IF lm # "none" THEN 1 ELSE 0) + (IF pv # "none" THEN 1 ELSE 0) IN
-     /\ c <= budget
-     /\ budget' = budget - c
+     Have("out", c) /\ Spend("out", c)
   /\ LET idx == SetToSortedSeq(OutIdx(kind))
          base == [i \in DOMAIN idx |-> OutOf(<<Of(idx[i])>>, "none", "none")] IN
      /\ prog' = [prog EXCEPT !.outs = base]
      /\ cur' = [tool |-> "out", pend |-> nx, lm |-> lm, pv |-> pv]
      /\ pc' = IF nx = 0 THEN "emit" ELSE "outsrc"
-  /\ UNCHANGED failok
+  /\ UNCHANGED <<res, nsteps, failok>>
 
 PickOutSrc(ss) ==
   /\ pc = "outsrc"
   /\ Len(ss) = cur.pend
-  /\ prog' = [prog EXCEPT !.outs = Append(@, OutOf(ss, cur.lm, cur.pv))]
+  /\ LET o == OutOf(ss, cur.lm, cur.pv) IN
+     /\ failok \/ ~IsFail(RawBind(Env, o))
+     /\ prog' = [prog EXCEPT !.outs = Append(@, o)]
   /\ pc' = "emit"
-  /\ UNCHANGED <<cur, budget, failok>>
+  /\ UNCHANGED <<res, cur, budget, nsteps, failok>>
 
 \* the program is complete
 Emit ==
   /\ pc = "emit"
-  /\ failok \/ ~IsFail(Eval(prog))
   /\ pc' = "done"
-  /\ UNCHANGED <<prog, cur, budget, failok>>
+  /\ UNCHANGED <<prog, res, cur, budget, nsteps, failok>>
 
 SrcSeqs(n, k) == IF n = 1 THEN {<<s>> : s \in Srcs(k)}
                  ELSE IF n = 2 THEN {<<s1, s2>> : s1 \in Srcs(k), s2 \in Srcs(k)}
                  ELSE {<<s1, s2, s3>> : s1 \in Srcs(k), s2 \in Srcs(k), s3 \in Srcs(k)}
 
 NextNoEmit ==
+  \/ pc = "ins" /\ \E a \in InDom[1], b \in InDom[2], c \in InDom[3], d \in {NoVal, IntV(5)} : PickIns(a, b, c, d)
   \/ \E t \in Tools, e \in BOOLEAN : PickTool(t, e)
+  \/ pc = "scatter" /\ \E sc \in ScatterChoices(cur.names), m \in Methods : PickScatter(sc, m)
+  \/ \E w \in Whens : PickWhen(w)
+  \/ \E lp \in Loops : PickLoop(lp)
   \/ \E n \in 0..2, lm \in LMs, pv \in PVs, df \in DFs, vf \in VFs : PickBind(n, lm, pv, df, vf)
   \/ pc = "src" /\ \E ss \in SrcSeqs(cur.pend, Len(prog.steps)) : PickSrc(ss)
-  \/ pc = "ctl" /\ \E sc \in ScatterChoices(cur.names), m \in Methods, w \in Whens, lp \in Loops :
-        PickCtl(sc, m, w, lp)
+  \/ EndStep
   \/ \E kind \in OutKinds, nx \in OutNs, lm \in LMs, pv \in PVs : PickOuts(kind, nx, lm, pv)
   \/ pc = "outsrc" /\ \E ss \in SrcSeqs(cur.pend, Len(prog.steps)) : PickOutSrc(ss)
 
@@ -400,8 +503,9 @@ Complete == pc = "done"
 LawTotal == Complete => LET r == Eval(prog) IN
               IsFail(r) \/ (Len(r.v) = Len(prog.outs) /\ \A k \in DOMAIN r.v : WellFormed(r.v[k]))
 
-StepRes == RunSteps(prog, EffIns(prog), <<>>, SubLib)
-StepEnv(j) == [ins |-> EffIns(prog), res |-> SubSeq(StepRes, 1, j - 1)]
+StepRes == res
+LawResIsEval == res = RunSteps(prog, EffIns(prog), <<>>, SubLib)
+StepEnv(j) == [ins |-> EffIns(prog), res |-> SubSeq(StepRes, 1, j - 1), steps |-> prog.steps]
 StepObj(j) == LET st == prog.steps[j] IN
               [n \in {st.in[i].name : i \in DOMAIN st.in} |->
                  RawBind(StepEnv(j), st.in[CHOOSE i \in DOMAIN st.in : st.in[i].name = n])]
